@@ -441,6 +441,8 @@ def judge_c12(ctx, ex):
         yield (lo["parse_problem"] or hi["parse_problem"], True, None)
         return
     tagged = "iri+bnode" in ctx["structure"]["tags"]
+    if "label-clash" in ctx["structure"]["tags"]:      # equally labelled shapes (recorded C05 finding) are told apart by their class value
+        lo, hi = dict(lo, schema=_unique_labels(lo["schema"])), dict(hi, schema=_unique_labels(hi["schema"]))
     v_lo, v_hi = statements_view(lo["schema"]), statements_view(hi["schema"])
     for label, keys in v_hi.items():
         if label not in v_lo:
@@ -454,6 +456,19 @@ def judge_c12(ctx, ex):
     by_fact_lo = {}
     for k, v in f_lo.items():
         by_fact_lo.setdefault(k[:5], []).append(v)
+    # one alternative (kind, cardinality) is reported once per constraint: two comments naming it with different figures cannot both be "the" figure
+    for r in (lo, hi):
+        for sh in r["schema"].shapes:
+            for stm in sh.statements:
+                seen = {}
+                for com in stm.comments:
+                    if com.get("other") or com.get("annotation") or com.get("obj") is None:
+                        continue
+                    key = (_kind_of_target(com["obj"]), com["card"])
+                    if key in seen:
+                        yield ("alternative %r of %s / %s is reported twice with different figures" % (key, sh.label, stm.pred), fig_differs(ex, seen[key], com["ratio"]), None)
+                    else:
+                        seen[key] = com["ratio"]
     # an alternative (kind, cardinality) reported at the higher threshold is reported at the lower one too: raising the threshold only removes
     # (checked under keep_less_specific and discard_useless_constraints_with_positive_closure, the defaults: with either switched off the code deliberately
     #  hides the '+' alternative or a less frequent one behind the chosen constraint at low thresholds, so it can surface later - observed on the unchanged tree)
@@ -463,12 +478,17 @@ def judge_c12(ctx, ex):
         if k[:5] not in lo_facts:
             if k[4] == "+" and (hi["flags"]["disable_exact_cardinality"] or lo["flags"]["disable_exact_cardinality"]):
                 continue   # '+' produced by generalising an exact cardinality is not an observed alternative of its own
-            cls = "STAGE-nonliteral-filter-before-merge" if tagged and k[3] in ("NONLITERAL", "IRI", "BNode") else None
+            # (with IRI and blank-node values mixed, the per-kind statements - shape references included - are filtered before they are merged: recorded finding)
+            cls = "STAGE-nonliteral-filter-before-merge" if tagged and (k[3] in ("NONLITERAL", "IRI", "BNode") or str(k[3]).startswith("%")) else None
             yield ("alternative %r is reported at the higher threshold only" % (k[:5],), True, cls)
     for k, (ratio, count) in f_hi.items():
-        if k[4] == "+" and k[5] == "line" and hi["flags"]["disable_exact_cardinality"]:
-            continue   # documented: a '+' line may carry the figure of the exact cardinality it generalises
-        for (r2, c2) in [v for kk, v in f_lo.items() if kk[:5] == k[:5] and not (kk[4] == "+" and kk[5] == "line" and lo["flags"]["disable_exact_cardinality"])]:
+        # a '+' line produced by generalising an exact cardinality carries that cardinality's figure - observed on the unchanged tree only when the
+        # all-compliant relaxation is off (with it on, the constraint is relaxed to '?' / '*' before it could be generalised)
+        gen_hi = hi["flags"]["disable_exact_cardinality"] and not hi["flags"]["all_instances_are_compliant_mode"]
+        gen_lo = lo["flags"]["disable_exact_cardinality"] and not lo["flags"]["all_instances_are_compliant_mode"]
+        if k[4] == "+" and k[5] == "line" and gen_hi:
+            continue
+        for (r2, c2) in [v for kk, v in f_lo.items() if kk[:5] == k[:5] and not (kk[4] == "+" and kk[5] == "line" and gen_lo)]:
             cls = "STAGE-nonliteral-merge-figures" if k[3] == "NONLITERAL" else None
             yield ("figure (count) of %r differs between the two thresholds" % (k[:5],), fig_differs(ex, count, c2), cls)
             yield ("figure (ratio) of %r differs between the two thresholds" % (k[:5],), fig_differs(ex, ratio, r2), cls)
@@ -481,14 +501,21 @@ def judge_c12_zero(ctx, ex):
     if r0["schema"] is None:
         yield (r0["parse_problem"], True, None)
         return
-    f = facts(r0["schema"])
+    clash = "label-clash" in ctx["structure"]["tags"]
+    schema0 = _unique_labels(r0["schema"]) if clash else r0["schema"]
+    f = facts(schema0)
     have = {k[:4] for k in f}
-    for sh in r0["schema"].shapes:
+    for sh in schema0.shapes:
         for stm in sh.statements:
             for t in stm.targets:
                 have.add((sh.label, stm.inverse, stm.pred, _kind_of_target(t)))
+    n_labels = {}
+    for sh in r0["schema"].shapes:
+        n_labels[sh.label] = n_labels.get(sh.label, 0) + 1
     for (c, d, prop, kind, card) in r0["sym"]["ref"]:
         label = R.shape_name(c)[2:-1]
+        if clash and n_labels.get(label, 0) > 1:
+            label = label + "|" + c
         if (label, d == 1, prop, kind) in have:
             continue
         if kind in ("IRI", "BNode") and any(h[:3] == (label, d == 1, prop) and (h[3] in ("NONLITERAL", "IRI", "BNode") or h[3].startswith("%")) for h in have):
